@@ -17,11 +17,15 @@ RULE = ("valid streams from the real encoder (random meshes of every topology fa
         "completely through face(), mapped_index(), GetValue(), GetAddress(), GetMappedValue(); for sequential streams the "
         "Lean model decodes the same bytes (status, consumed bytes, geometry must agree; model geometry re-checked with "
         "Geometry.valid); distinct op lines")
-THEOREM_BACKED = ("decode_ok_valid: decodeGeometry opts s = (some r, s') -> r.geometry.valid = true for every byte string "
-                  "and option set (sequential mesh + sequential point cloud model; kd-tree / Edgebreaker streams are "
-                  "rejected as unsupported by the model)")
-CORRESPONDENCE_ONLY = ("kd-tree and Edgebreaker streams, bitstream < 2.0 attribute decoders: validity is evaluated on the "
-                       "implementation's returned geometry only (explicit test + sanitized accessor walk)")
+THEOREM_BACKED = ("decode_ok_valid: decodeGeometrySeq opts s = (some r, s') -> r.geometry.valid = true for every byte string and "
+                  "option set (sequential point cloud + mesh decoders of every bitstream version 1.1..2.3; decodeGeometrySeq = the "
+                  "complete decoder with the Edgebreaker / kd-tree bodies rejected); decode_seq_stream_ok_valid (the complete "
+                  "decodeGeometry on every stream whose header announces a sequential method); decode_ok_valid_with (the "
+                  "dispatcher with arbitrary body decoders that only return valid geometries); decode_all_ok_valid_partial "
+                  "(complete decoder: kd-tree body discharged by Kd.decodeKdGeometry_valid, Edgebreaker body validity is the "
+                  "remaining hypothesis); valid_accessors_in_bounds")
+CORRESPONDENCE_ONLY = ("Edgebreaker streams: no validity theorem about the Edgebreaker body of the model; validity is evaluated on "
+                       "the implementation's returned geometry (explicit test + sanitized accessor walk)")
 EXPLANATION = ("full proof on the model of the sequential decoders; the model is tied to the C++ by decoding the same "
                "(valid and corrupted) streams; for the methods outside the model the property is tested on the real output")
 TRUSTED_EXTRA = ["harness/ops_robust.cc validity(): the explicit structural test applied to the returned PointCloud / Mesh"]
